@@ -379,7 +379,7 @@ def main(run):
     info = proof_stage(run, "C11", extra_targets=["corr/C11_corr.vo"])
     harness_build()
     r = run.rng
-    n = 36 if run.tier == "quick" else 400
+    n = 36 if run.tier == "quick" else 1200
     cases = load_corpus() + [gen_case(r, big=(i % 6 == 0)) for i in range(n)]
     toml = J.make_toml()
     reqs = []
